@@ -378,7 +378,8 @@ fn judge(kind: Kind, n: usize, base: &Response, with: &Response, evs: &[Ev], wan
         ));
     }
     let mut counted = false;
-    if let (Kind::Valid, Some(w)) = (kind, want) {
+    // with a failing resolver the siblings of a propagating error may or may not have been resolved: no count then
+    if let (Kind::Valid, Some(w)) = (kind, want.filter(|w| w.errors.is_empty())) {
         let expect = w.touches.len() + w.list_items;
         let got = t.resolves - t.typename_resolves;
         if got != expect {
@@ -409,7 +410,10 @@ fn classify(c: Case, r: &Req, n: usize, flavour: &str, j: Option<&Judged>, want:
         .class_if(lists, "list-items-resolved")
         .class_if(resolves >= 10, "resolves>=10")
         .class_if(mutation, "mutation")
-        .class_if(r.kind == Kind::Valid && j.map_or(false, |j| !j.counted), "reference-disagrees(count-not-checked)")
+        .class_if(r.kind == Kind::Valid && j.map_or(false, |j| !j.counted) && want.map_or(true, |w| w.errors.is_empty()), "reference-disagrees(count-not-checked)")
+        .class_if(want.map_or(false, |w| !w.errors.is_empty()), "failing-resolver")
+        .class_if(want.map_or(false, |w| w.errors.iter().any(|e| e.nulled.len() < e.path.len())), "failing-resolver-error-propagates")
+        .class_if(want.map_or(false, |w| w.errors.iter().any(|e| e.nulled.len() < e.path.len() && e.path.iter().any(|s| matches!(s, vgql::refexec::Seg::Idx(_))))), "failing-resolver-below-list-item-propagates")
         .class_if(r.td.stats.named_fragments > 0, "named-fragment")
 }
 
@@ -449,10 +453,27 @@ fn z_stack() -> Stack<ZSchema> {
     Stack { schemas, log }
 }
 
+
+/// One failing resolver at a position the request reaches (half of the valid cases): transparency covers `errors`
+/// too. One fault only, so that which errors are reported does not depend on how far sibling resolvers got.
+fn inject_fault(sch: &Sch, r: &Req, world: &mut World, s: &mut dyn Src, static_z: bool) {
+    if r.kind != Kind::Valid || !s.bool() {
+        return;
+    }
+    let Ok(w) = execute(sch, &r.td.doc, r.td.op_name.as_deref(), &r.td.vars, world, Quirks::default()) else { return };
+    let reached: Vec<(usize, String)> = w.touches.iter().filter(|t| !(static_z && vschemas::z::is_plain_data_field(&t.parent_type, &t.field))).map(|t| (t.node, t.field.clone())).collect();
+    if reached.is_empty() {
+        return;
+    }
+    let at = reached[s.choose(reached.len())].clone();
+    world.faults.insert(at, Fault::ResolverError);
+}
+
 fn static_case(st: &Stack<ZSchema>, sch: &Sch, s: &mut dyn Src, tcfg: &TypedCfg) -> Case {
     let n = 1 + s.choose(3);
-    let world = gen_world(sch, s, &WorldCfg::default());
+    let mut world = gen_world(sch, s, &WorldCfg::default());
     let r = gen_req(sch, s, tcfg);
+    inject_fault(sch, &r, &mut world, s, true);
     let rendered = format!("static Z, {} extensions, {} request\nworld: {}\nquery: {}\nvariables: {}\noperationName: {:?}", n, r.kind.label(), world.show(), r.text, vars_json(&r.td.vars), r.op_name);
     let rt = Rt::new(world.clone());
     let base = vcore::det::block_on(st.schemas[0].execute(ag_request(&r).data(rt.clone())));
@@ -481,8 +502,9 @@ fn dynamic_case(fixed: Option<&Sch>, s: &mut dyn Src, tcfg: &TypedCfg) -> Case {
             (&gen, "dynamic-random")
         }
     };
-    let world = gen_world(sch, s, &WorldCfg { null_composite_items: false, ..WorldCfg::default() });
+    let mut world = gen_world(sch, s, &WorldCfg { null_composite_items: false, ..WorldCfg::default() });
     let r = gen_req(sch, s, tcfg);
+    inject_fault(sch, &r, &mut world, s, false);
     let rendered = format!(
         "{}, {} extensions, {} request\n{}world: {}\nquery: {}\nvariables: {}\noperationName: {:?}",
         flavour,
